@@ -713,6 +713,7 @@ func (check typecheck) typeAssertionExpr(n *node, typ *itype) error {
 		return nil
 	}
 
+	tms := typ.dynMethods()
 	for name := range ims {
 		im := lookupFieldOrMethod(n.typ, name)
 		tm := lookupFieldOrMethod(typ, name)
@@ -727,9 +728,14 @@ func (check typecheck) typeAssertionExpr(n *node, typ *itype) error {
 			if !token.IsExported(name) && isBin(typ) {
 				continue
 			}
+			// The method may be promoted from an embedded binary type.
+			if _, ok := tms[name]; ok {
+				continue
+			}
 			return n.cfgErrorf("impossible type assertion: %s does not implement %s (missing %v method)", typ.id(), n.typ.id(), name)
 		}
-		if tm.recv != nil && tm.recv.TypeOf().Kind() == reflect.Ptr && typ.TypeOf().Kind() != reflect.Ptr {
+		// A method with a pointer receiver is in the method set of typ if it is promoted through an embedded pointer.
+		if _, ok := tms[name]; !ok && tm.recv != nil && tm.recv.TypeOf().Kind() == reflect.Ptr && typ.TypeOf().Kind() != reflect.Ptr {
 			return n.cfgErrorf("impossible type assertion: %s does not implement %s as %q method has a pointer receiver", typ.id(), n.typ.id(), name)
 		}
 
